@@ -758,7 +758,7 @@ func txnScriptReplay(r *core.Run, cfgs []string, nsim int, pre string) int {
 		var sql strings.Builder
 		sql.WriteString(strings.Join(txnPreamble, "\n") + "\n")
 		var selects []Out
-		var selectAgg []bool
+		var selectAgg, selectD []bool
 		attrChanged := map[string]bool{} // SET ENCODING is a change of the file although the table stays the same
 		for k, a := range b.acts {
 			if actName(a) == "setenc" {
@@ -775,9 +775,10 @@ func txnScriptReplay(r *core.Run, cfgs []string, nsim int, pre string) int {
 			}
 			sql.WriteString(txnSQL(a))
 			sql.WriteByte('\n')
-			if n := actName(a); (n == "select" || n == "selectsub" || n == "selectagg" || n == "selectfn" || n == "selectinline") && b.exps[k].K == "val" {
+			if n := actName(a); (n == "select" || n == "selectsub" || n == "selectagg" || n == "selectfn" || n == "selectinline" || n == "selectd") && b.exps[k].K == "val" {
 				selects = append(selects, b.exps[k])
 				selectAgg = append(selectAgg, n == "selectagg")
+				selectD = append(selectD, n == "selectd")
 			}
 		}
 		wantExit := 0
@@ -824,6 +825,9 @@ func txnScriptReplay(r *core.Run, cfgs []string, nsim int, pre string) int {
 			}
 			if selectAgg[k] && len(got) == 4 {
 				got = got[2:]
+			}
+			if selectD[k] {
+				got = got[len(got)-1:]
 			}
 			if !sameOut(Out{K: "val", Vals: got}, selects[k]) {
 				return res{pre + ":select-contents", fmt.Sprintf("SELECT number %d shows %v, specification %v\n%s", k+1, got, selects[k].Vals, ctx)}
